@@ -45,6 +45,7 @@ def plan(tier, seed):
               'spaced_bias': i % 2 == 0} for i in range(n)]
     for i in range(4):
         specs.append({'kind': 'strings', 'slice': [i, 4]})
+    specs.append({'kind': 'numbers'})
     return specs
 
 
@@ -99,7 +100,7 @@ def check_program(ctx, src, p, config, keep_names, workdir, cli):
     ctx.case((src, config), nontrivial=len(sin) >= 8)
     ctx.feature('config:' + config)
     for f in p.feats:
-        if f in STAT_FEATS or f in ('shortif', 'qprint'):
+        if f in STAT_FEATS or f in ('shortif', 'qprint', 'table-method-with-block-then-line-scope', 'num:random'):
             ctx.feature(f)
     seen = ctx.extra.setdefault('pairs', set())
     for a, b in zip(sin, sin[1:]):
@@ -207,10 +208,36 @@ def run_strings(spec, ctx):
     ctx.sample({'string_source': b's="\\\\014x"'})
 
 
+def run_numbers(spec, ctx):
+    """The numeral enumerator (mantissa x exponent x zero padding; hex; binary) through the minifier in every configuration: a
+    re-spelled numeral has to keep its exact value and stay one token."""
+    nums = progen.gen_numerals()
+    for config in ('default', 'keep_all'):
+        for k in range(0, len(nums), 6):
+            grp = nums[k:k + 6]
+            src = b''.join(b'n%d=%s\n' % (j, n) for j, n in enumerate(grp)) + b'm={' + b','.join(grp) + b'}\nq=' + b'+'.join(grp)
+            case = {'src': src, 'config': config, 'keep_names': [], 'scopes': []}
+            ctx.case((src, 'numbers', config), nontrivial=True)
+            ctx.feature('numeral_enumerator_cases', len(grp))
+            try:
+                L, out = minify.minify_lib(src, config)
+            except Exception as e:
+                ctx.violation('luamin raised %r on %r' % (e, src[:60]), case)
+                continue
+            problem, pairs, info = minify.align(src, out, None)
+            ctx.monitor('numerals_aligned', 3 * len(grp))
+            if problem is not None:
+                ctx.violation('library path: ' + problem[1], case, key=classify(src, problem))
+    ctx.sample({'numeral_source': b'n0=2.50e-20'})
+
+
 def run_shard(spec, ctx):
     rng = ctx.rng
     if spec.get('kind') == 'strings':
         run_strings(spec, ctx)
+        return
+    if spec.get('kind') == 'numbers':
+        run_numbers(spec, ctx)
         return
     workdir = tempfile.mkdtemp(prefix='vf-c01-')
     try:
@@ -218,7 +245,8 @@ def run_shard(spec, ctx):
             depth = rng.choice((1, 2, 2, 3)) if not spec.get('deep') else rng.choice((3, 4, 5))
             p = progen.gen_program(rng, {'depth': depth, 'max_stmts': 4 if depth <= 3 else 2, 'exotic_numbers': True,
                                          'exotic_strings': True, 'paren_op_prefix': rng.random() < 0.2,
-                                         'nested_short_if': rng.random() < 0.1})
+                                         'nested_short_if': rng.random() < 0.1,
+                                         'table_methods': 0.6 if i % 4 == 0 else 0.0})
             style = 'spaced' if (spec.get('spaced_bias') and rng.random() < 0.6) else None
             src = layout.render(p, rng, style=style)
             if src is None:
@@ -273,6 +301,11 @@ def gates(m, tier):
         missed.append('pair-directed layout used %d times' % f.get('layout_spaced', 0))
     if mon.get('string_literals_aligned', 0) < 5000:
         missed.append('string enumerator through luamin: %d' % mon.get('string_literals_aligned', 0))
+    if mon.get('numerals_aligned', 0) < 2000:
+        missed.append('numeral enumerator through luamin: %d' % mon.get('numerals_aligned', 0))
+    if f.get('table-method-with-block-then-line-scope', 0) < 100 or f.get('num:random', 0) < 100:
+        missed.append('table methods with a block then a line-scoped statement: %d programs; random numerals: %d programs'
+                      % (f.get('table-method-with-block-then-line-scope', 0), f.get('num:random', 0)))
     if mon.get('cli_luamin_runs', 0) < 20 or mon.get('cli_build_minify_runs', 0) < 5:
         missed.append('CLI paths: luamin %d, build %d' % (mon.get('cli_luamin_runs', 0), mon.get('cli_build_minify_runs', 0)))
     # keep evidence small: drop the raw pair lists
